@@ -24,7 +24,7 @@ RULE = ("Client-side history of two events per case: s = encode(m, G, v, mode, t
         "uint8/list; tables none/random/constant; check lengths 0,1,2,5,33 and random 1..70. A case is non-trivial when the message is "
         "non-empty and (the graph has >= 2 distinct out-degrees, or a table, or a check is used); distinct = distinct "
         "canonical hash of (graph, start, message, mode, table, check length, dtype)."
-        ' Also: messages beyond 2100 bits under the int<->str trap, buffer twins (uint8 bytes of a short int64 message), decimal-round values d*10^e, accessors in Fortran / strided layout and with int32 / int16 entries, widths as numpy int64/uint16/uint64, start vertices as numpy.int64, need_path / verbose on, and edit sequences in which one accessor object and one table object are reused while the accessor is overwritten in place between round trips.')
+        ' Also: messages beyond 2100 bits under the int<->str trap, buffer twins (uint8 bytes of a short int64 message), decimal-round values d*10^e, accessors in Fortran / strided layout and with int32 / int16 entries, widths as numpy int64/uint16/uint64, start vertices as numpy int64 / uint8 / uint16 / int16 / int32 / uint32, need_path / verbose on, and edit sequences in which one accessor object and one table object are reused while the accessor is overwritten in place between round trips.')
 ASSUMPTIONS = ["message element types limited to int64/int32/int8/uint8 arrays and Python int lists (numpy bool arrays "
                "are not a supported message type)"]
 
@@ -70,7 +70,7 @@ def generate(ctx):
                 yield "roundtrip", dict(gcase, start=int(start), bits=bits, fast=fast, table=rand_table_spec(rng),
                                         layout=rng.choice([None] * 8 + ["F", "strided", "i32", "i16"]),
                                         wtype=rng.choice(["int"] * 6 + ["int64", "uint16", "uint64"]),
-                                        path=rng.random() < 0.1, verbose=rng.random() < 0.05, npstart=rng.random() < 0.5,
+                                        path=rng.random() < 0.1, verbose=rng.random() < 0.05, npstart=rng.choice([None] * 4 + ["int64", "int64", "uint8", "uint8", "uint16", "int32", "uint32", "int16"]),
                                         vt=rng.choice(VTS) if rng.random() < 0.7 else rng.randint(1, 70), dtype=rng.choice(DTYPES), mclass=mclass, fam=fam)
 
 
@@ -170,7 +170,11 @@ def check_roundtrip(ctx, case, acc_obj=None, name="roundtrip", shuf_obj=None):
     live = int((G.out_degrees(acc) > 0).sum())
 
     if case.get("npstart"):
-        start = __import__("numpy").int64(start)   # start vertices usually come out of numpy arrays (obtain_vertices)
+        # start vertices usually come out of numpy arrays (obtain_vertices, argmax, a uint8 / uint16 index table)
+        typ = getattr(np, case["npstart"] if isinstance(case["npstart"], str) else "int64")
+        if start <= np.iinfo(typ).max:
+            start = typ(start)
+            ctx.cls("start type|" + typ.__name__)
     import contextlib
     import io
     with contextlib.redirect_stdout(io.StringIO()):
@@ -248,7 +252,7 @@ def floors(agg, tier):
                     if agg["classes"].get(name, 0) < need:
                         out.append("%s observed %d < %d" % (name, agg["classes"].get(name, 0), need))
     for name, need2 in (("edit sequences (same accessor object overwritten in place)", 100), ("msg|long", 8), ("msg|twin", 20),
-                        ("msg|dec-round", 100), ("accessor layout|F", 100), ("accessor layout|i16", 100), ("width type|uint16", 100)):
+                        ("msg|dec-round", 100), ("accessor layout|F", 100), ("accessor layout|i16", 100), ("width type|uint16", 100), ("start type|uint8", 100), ("start type|uint16", 100)):
         if agg["classes"].get(name, 0) < need2:
             out.append("%s observed %d < %d" % (name, agg["classes"].get(name, 0), need2))
     for m in ("empty", "zeros", "leadzero", "odd"):
